@@ -449,6 +449,11 @@ def detect_fixed():
 def oracle(inp):
     if inp[0] == 0:
         return property_failure(inp[2])
+    if inp[0] == 2:
+        labels, _obs, _delivered, _returned, packets_ok, results = run_scenario(inp[3])
+        if not packets_ok:
+            return f"UNEXPLAINED: the layer above the transport lost or invented packets: {results!r}"
+        return property_failure(labels)
     return None
 
 
@@ -479,7 +484,20 @@ def run_impl(inp):
         if key in _cache:
             return _cache.pop(key)
         return replay(inp[2])
+    if inp[0] == 2:
+        key = repr(runner_norm(inp[3]))
+        if key in _cache:
+            return _cache.pop(key)
+        labels, out = _scenario_output(inp[3])
+        if runner_norm(labels) != runner_norm(inp[2]):
+            raise RuntimeError("the scenario did not reproduce its recorded label trace (non-deterministic harness)")
+        return out
     raise ValueError(f"unknown mode {inp[0]}")
+
+
+def runner_norm(v):
+    from common import sx
+    return sx.norm(v)
 
 
 class Bytes:
@@ -590,3 +608,441 @@ def cases(tier, rng, escalate):
         tags, nontrivial = _tags(shape, res[0])
         _cache[repr(labels)] = res
         yield dict(input=[0, 2, labels], tags=["proto", "random"] + tags, nontrivial=nontrivial)
+    yield from _mode2_cases(thorough, rng)
+
+
+# =====================================================================================================================
+# mode 2: higher layers on the ORDINARY event loop (DetLoop: BaseEventLoop._run_once, real timers, virtual clock).
+#   The protocol-level label trace of the run is RECORDED (receive calls and their completion, read events, EOF,
+#   task.cancel() on the reader while it is inside a receive, iteration boundaries) and replayed by the model.
+#   input = [2, fx, recorded_labels, scenario]; scenario = [layer, consumer, cancel_kind, late_feed, ops, events]
+#     layer       0 AsyncStreamEndpoint.recv_packet | 1 server request receiver .next(timeout) | 2 TLS over the adapter
+#     consumer    0 StreamProtocol (recv) | 1 BufferedStreamProtocol (recv_into)
+#     cancel_kind 0 backend.timeout(d) | 1 backend.move_on_after(d) | 2 task.cancel() by another task
+#     ops         [[delay_before, budget], ...]   one receive attempt each; times in quarter-nanosecond-free units:
+#                 a time is [ticks, sub] = ticks * 1.0 s + sub * 0.25 ns (sub orders callbacks inside one iteration,
+#                 because the loop runs every timer due within its 1 ns clock resolution in deadline order)
+#     events      [[time, kind, payload]]   kind 0 data | 1 eof
+# =====================================================================================================================
+SUB = 0.25e-9
+SEP = b"\n"
+
+
+def _t(time):
+    return time[0] * 1.0 + time[1] * SUB
+
+
+class Recorder:
+    def __init__(self, loop):
+        self.loop = loop
+        self.labels = []
+        self.obs = []
+        self.last_steps = loop.steps
+        self.reader = None
+        self.in_receive = False
+        self.call_steps = -1
+        self.call_buf = None
+        self.stray_cancels = 0
+        self.delivered = bytearray()
+        self.returned = bytearray()
+
+    def _turns(self):
+        d = self.loop.steps - self.last_steps
+        self.labels.extend([[L_TURN]] * min(d, 2))
+        self.last_steps = self.loop.steps
+
+    def event(self, label, obs=None):
+        self._turns()
+        self.labels.append(label)
+        if obs:
+            self.obs.append(obs)
+
+    def call(self, into, k):
+        self.event([L_INTO if into else L_RECV, k])
+        self.reader = asyncio.current_task()
+        self.in_receive = True
+        self.call_steps = self.loop.steps
+        if getattr(self.reader, "_must_cancel", False):
+            # a cancellation requested while the task was running: it takes effect at the first suspension
+            self.labels.append([L_CANCEL])
+
+    def done(self, obs):
+        self.in_receive = False
+        if self.loop.steps == self.call_steps:
+            self.obs.append(obs)            # returned / raised without suspending: outcome of the call label
+        else:
+            self.event([L_WAKE], obs)
+        if obs[0] == 0:
+            self.returned += obs[1]
+
+
+def _rec_protocol_class():
+    base = _protocol_class()
+
+    class RecProtocol(base):
+        __slots__ = ("rec", "env_exc")
+
+        async def receive_data(self, bufsize, /):
+            self.rec.call(False, bufsize)
+            try:
+                data = await super().receive_data(bufsize)
+            except BaseException as exc:  # noqa: BLE001
+                self.rec.done(_exc_obs(exc, self.env_exc))
+                raise
+            self.rec.done([0, bytes(data)])
+            return data
+
+        async def receive_data_into(self, buffer, /):
+            with memoryview(buffer) as view:
+                k = view.nbytes
+            self.rec.call(True, k)
+            try:
+                n = await super().receive_data_into(buffer)
+            except BaseException as exc:  # noqa: BLE001
+                self.rec.done(_exc_obs(exc, self.env_exc))
+                raise
+            with memoryview(buffer) as view:
+                self.rec.done([0, bytes(view.cast("B")[:n])])
+            return n
+
+    return RecProtocol
+
+
+def _exc_obs(exc, env_exc):
+    if isinstance(exc, asyncio.CancelledError):
+        return [1]
+    if exc is env_exc:
+        return [2, 0]
+    if isinstance(exc, OSError) and exc.errno == errno.ECONNRESET:
+        return [2, 1]
+    if isinstance(exc, RuntimeError):
+        return [3]
+    return [9, zlib.crc32(type(exc).__name__.encode()) & 0xFFFF]
+
+
+class _FakeSocket:
+    family = 2
+    type = 1
+    proto = 0
+
+    def fileno(self):
+        return -1
+
+    def getsockname(self):
+        return ("127.0.0.1", 1)
+
+    def getpeername(self):
+        return ("127.0.0.1", 2)
+
+
+class WireTransport(asyncio.Transport):
+    """what the adapter sees below it: a write-only sink plus the flags it asks for"""
+
+    def __init__(self, loop, proto):
+        super().__init__(extra={"socket": _FakeSocket()})
+        self.loop, self.proto = loop, proto
+        self.closing = False
+        self.written = bytearray()
+        self.on_write = None
+
+    def set_write_buffer_limits(self, high=None, low=None):
+        pass
+
+    def get_write_buffer_size(self):
+        return 0
+
+    def is_closing(self):
+        return self.closing
+
+    def can_write_eof(self):
+        return True
+
+    def write_eof(self):
+        pass
+
+    def write(self, data):
+        self.written += data
+        if self.on_write:
+            self.on_write(bytes(data))
+
+    def writelines(self, chunks):
+        for c in chunks:
+            self.write(c)
+
+    def close(self):
+        if not self.closing:
+            self.closing = True
+            self.loop.call_soon(self.proto.connection_lost, None)
+
+    abort = close
+
+    def pause_reading(self):
+        raise AssertionError("pause_reading() called: read flow control is outside the C10 model")
+
+    def resume_reading(self):
+        raise AssertionError("resume_reading() called")
+
+
+class Feeder:
+    """plays the selector transport: delivers scripted bytes through get_buffer()/buffer_updated()"""
+
+    def __init__(self, loop, proto, rec):
+        self.loop, self.proto, self.rec = loop, proto, rec
+        self.backlog = bytearray()       # bytes the kernel still holds (a read event takes what fits)
+        self.eof_pending = False
+        self.eof_done = False
+
+    def push(self, payload):
+        self.backlog += payload
+        self._read_ready()
+
+    def push_eof(self):
+        self.eof_pending = True
+        self._read_ready()
+
+    def _read_ready(self):
+        if self.eof_done:
+            return
+        if self.backlog:
+            payload = bytes(self.backlog)
+            buf = self.proto.get_buffer(-1)
+            with memoryview(buf) as view:
+                room = view.nbytes
+                n = min(room, len(payload))
+                view[:n] = payload[:n]
+            del self.backlog[:n]
+            self.rec.delivered += payload[:n]
+            self.rec.event([L_DATA, payload], [4, n, room])
+            self.proto.buffer_updated(n)
+            if self.backlog or self.eof_pending:
+                self.loop.call_soon(self._read_ready)      # level-triggered: still readable in the next iteration
+        elif self.eof_pending:
+            self.eof_done = True
+            self.rec.event([L_EOF])
+            self.proto.eof_received()
+
+
+def _make_protocols(consumer):
+    from common import streamcase as sc
+    from easynetwork.protocol import BufferedStreamProtocol, StreamProtocol
+    ser = sc.IdAutoSep(SEP, 64)
+    return BufferedStreamProtocol(ser) if consumer == 1 else StreamProtocol(ser)
+
+
+def frames_of(data: bytes):
+    parts = bytes(data).split(SEP)
+    return parts[:-1]
+
+
+def run_scenario(scenario):
+    """-> (recorded labels, significant observations, delivered, returned, packets_ok, attempt results)"""
+    layer, consumer, cancel_kind, late_feed, ops, events = scenario[:6]
+    from easynetwork.lowlevel.api_async.backend._asyncio.backend import AsyncIOBackend
+    from easynetwork.lowlevel.api_async.backend._asyncio.stream.socket import AsyncioTransportStreamSocketAdapter
+    out = {}
+
+    with detloop.running(max_steps=20000) as loop:
+        rec = Recorder(loop)
+
+        class RecTask(asyncio.Task):
+            def cancel(self, msg=None):
+                if rec.reader is self or rec.reader is None:
+                    if rec.in_receive and rec.reader is self:
+                        rec.event([L_CANCEL])
+                    elif self is out.get("consumer_task"):
+                        rec.stray_cancels += 1
+                return super().cancel(msg)
+
+        loop.set_task_factory(lambda lp, coro, **kw: RecTask(coro, loop=lp, **kw))
+
+        async def main():
+            backend = AsyncIOBackend()
+            proto = _rec_protocol_class()(loop=loop)
+            proto.rec = rec
+            proto.env_exc = None
+            wire = WireTransport(loop, proto)
+            proto.connection_made(wire)
+            adapter = AsyncioTransportStreamSocketAdapter(backend, wire, proto)
+            feeder = Feeder(loop, proto, rec)
+            results = []
+            packets = []
+            t0 = loop.time()
+
+            def schedule_events():
+                for time, kind, payload in events:
+                    cb = (lambda p=payload: feeder.push(p)) if kind == 0 else feeder.push_eof
+                    loop.call_at(t0 + _t(time), cb)
+
+            receive = _receive_fn(layer, consumer, backend, adapter, packets)
+
+            async def attempt(budget):
+                """one receive attempt limited by `budget`; -> [0, pkt] | [1] timed out / moved on / cancelled | [2] closed"""
+                try:
+                    if cancel_kind == 0:
+                        with backend.timeout(_t(budget)):
+                            return [0, await receive(None)]
+                    if cancel_kind == 1:
+                        with backend.move_on_after(_t(budget)) as scope:
+                            return [0, await receive(None)]
+                        assert scope.cancelled_caught()
+                        return [1]
+                    if cancel_kind == 3:
+                        return [0, await receive(_t(budget))]       # the receiver's own timeout parameter
+                    task = loop.create_task(receive(None))
+
+                    def cancel_if_receiving():
+                        if rec.in_receive and rec.reader is task:
+                            task.cancel()
+                    handle = loop.call_at(loop.time() + _t(budget), cancel_if_receiving)
+                    try:
+                        return [0, await task]
+                    except asyncio.CancelledError:
+                        if not task.cancelled():
+                            raise
+                        return [1]
+                    finally:
+                        handle.cancel()
+                except TimeoutError:
+                    return [1]
+                except ConnectionAbortedError:
+                    return [2]
+                except StopAsyncIteration:
+                    return [2]
+
+            async def consume():
+                if late_feed:
+                    loop.call_soon(schedule_events)
+                for delay, budget in ops:
+                    if _t(delay) > 0:
+                        await asyncio.sleep(_t(delay))
+                    results.append(await attempt(budget))
+                # read the rest without any limit: everything delivered must come out
+                if not any(kind == 1 for _, kind, _ in events):
+                    last = max([_t(time) for time, _, _ in events] + [0.0])
+                    loop.call_at(max(loop.time(), t0 + last) + 1.0, feeder.push_eof)
+                while True:
+                    try:
+                        results.append([0, await receive(None)])
+                    except (ConnectionAbortedError, StopAsyncIteration):
+                        results.append([2])
+                        break
+                    except OSError as exc:
+                        results.append([3, exc.errno or 0])
+                        break
+
+            if not late_feed:
+                schedule_events()
+            out["consumer_task"] = consumer_task = loop.create_task(consume())
+            await consumer_task
+            with contextlib.suppress(Exception):
+                await adapter.aclose()
+            out["results"] = results
+            out["packets"] = packets
+
+        loop.run_until_complete(main())
+        rec._turns()
+
+    got = [r[1] for r in out["results"] if r[0] == 0]
+    expected = frames_of(rec.returned) if layer != 2 else None
+    packets_ok = 1 if (layer == 2 or got == expected) else 0
+    return rec.labels, rec.obs, bytes(rec.delivered), bytes(rec.returned), packets_ok, out["results"]
+
+
+def _receive_fn(layer, consumer, backend, adapter, packets):
+    """-> async fn(timeout) returning one packet (bytes) of the layer under test"""
+    if layer == 0:
+        from easynetwork.lowlevel.api_async.endpoints.stream import AsyncStreamEndpoint
+        ep = AsyncStreamEndpoint(adapter, _make_protocols(consumer), max_recv_size=8)
+
+        async def receive(timeout):
+            return bytes(await ep.recv_packet())
+        return receive
+    if layer == 1:
+        from easynetwork.lowlevel import _stream
+        from easynetwork.lowlevel._asyncgen import SendAction, ThrowAction
+        from easynetwork.lowlevel.api_async.servers import stream as srv
+        protocol = _make_protocols(consumer)
+        if consumer == 1:
+            receiver = srv._BufferedRequestReceiver(transport=adapter,
+                                                   consumer=_stream.BufferedStreamDataConsumer(protocol, 8),
+                                                   disconnect_error_filter=None)
+        else:
+            receiver = srv._RequestReceiver(transport=adapter, consumer=_stream.StreamDataConsumer(protocol),
+                                            max_recv_size=8, disconnect_error_filter=None)
+
+        async def receive(timeout):
+            action = await receiver.next(timeout)
+            if isinstance(action, SendAction):
+                return bytes(action.value)
+            assert isinstance(action, ThrowAction)
+            raise action.exception
+        return receive
+    raise ValueError(f"layer {layer}")
+
+
+def _scenario_output(scenario):
+    labels, obs, delivered, returned, packets_ok, _results = run_scenario(scenario)
+    return labels, [obs, delivered, returned, packets_ok]
+
+
+def _window_tags(labels):
+    """which orders of {read event, cancellation} occur between one suspension and its wake-up in a recorded trace"""
+    tags = set()
+    in_flight, seen = False, []
+    for lab in labels:
+        k = lab[0]
+        if k in (L_RECV, L_INTO):
+            in_flight, seen, into = True, [], k == L_INTO
+        elif k == L_WAKE:
+            if in_flight and L_DATA in seen and L_CANCEL in seen:
+                order = "data-then-cancel" if seen.index(L_DATA) < seen.index(L_CANCEL) else "cancel-then-data"
+                tags.add(f"window:{order}:" + ("recv_into" if into else "recv"))
+            in_flight = False
+        elif in_flight and k in (L_DATA, L_CANCEL, L_EOF):
+            seen.append(k)
+    return tags
+
+
+def _scenario_cases(thorough, rng):
+    streams = [[b"AB\nC", b"D\nEF\n"], [b"AB\n", b"CD\nEF\n"], [b"AB\nCD\nE", b"F\n"]]
+    subs = (-1, 0, 1)
+    combos = [(0, 0, 0), (0, 0, 1), (0, 0, 2), (0, 1, 0), (0, 1, 1), (0, 1, 2),
+              (1, 0, 0), (1, 0, 3), (1, 1, 0), (1, 1, 3), (1, 1, 2), (1, 0, 1)]
+    ops = [[[0, 0], [1, 0]]] * 3
+    for layer, consumer, cancel_kind in combos:
+        for late in (0, 1):
+            for chunks in streams:
+                for s1 in subs:
+                    for s2 in subs:
+                        events = [[[1, s1], 0, chunks[0]], [[2, s2], 0, chunks[1]]]
+                        yield [layer, consumer, cancel_kind, late, ops, events], "grid"
+    n_random = 1500 if thorough else 300
+    for _ in range(n_random):
+        layer, consumer, cancel_kind = rng.choice(combos)
+        nframes = rng.randint(2, 5)
+        stream = b"".join(bytes(rng.choice(b"abcdefgh") for _ in range(rng.randint(1, 4))) + SEP for _ in range(nframes))
+        cuts = sorted({rng.randrange(1, len(stream)) for _ in range(rng.randint(1, 4))})
+        pieces = [stream[a:b] for a, b in zip([0] + cuts, cuts + [len(stream)])]
+        events, tick = [], 0
+        for piece in pieces:
+            tick += rng.choice([0, 1, 1, 2])
+            events.append([[tick, rng.choice(subs)], 0, piece])
+        if rng.random() < 0.3:
+            events.append([[tick + rng.choice([0, 1]), 1], 1, b""])
+        ops_r = [[[rng.choice([0, 0, 1]), 0], [rng.choice([0, 1, 1, 2]), 0]] for _ in range(rng.randint(1, 5))]
+        yield [layer, consumer, cancel_kind, rng.randint(0, 1), ops_r, events], "random"
+
+
+LAYER_NAMES = {0: "endpoint", 1: "server-receiver", 2: "tls"}
+CANCEL_NAMES = {0: "timeout", 1: "move_on_after", 2: "task-cancel", 3: "receiver-timeout-arg"}
+
+
+def _mode2_cases(thorough, rng):
+    for scenario, origin in _scenario_cases(thorough, rng):
+        labels, out = _scenario_output(scenario)
+        _cache[repr(runner_norm(scenario))] = out
+        tags = ["layer", origin, LAYER_NAMES[scenario[0]], "buffered" if scenario[1] else "copying",
+                CANCEL_NAMES[scenario[2]]] + sorted(_window_tags(labels))
+        if out[1] != out[2] and not any(o[0] == 2 for o in out[0]):
+            tags.append("bytes-lost")
+        yield dict(input=[2, 2, labels, scenario], tags=tags, nontrivial=any(lab[0] == L_CANCEL for lab in labels))
